@@ -800,10 +800,25 @@ var DictBits bool
 // addr_extern (a bare *BitString in Go) becomes [len, bits]; Anycast{Depth, RewritePfx uint32} becomes [depth, bits].
 var SchemaShape bool
 
+var tVmCellSlice = reflect.TypeOf(tlb.VmCellSlice{})
+
+func vmSliceDump(x tlb.VmCellSlice) (out any) {
+	defer func() {
+		if p := recover(); p != nil {
+			out = M{"slice": "unset"}
+		}
+	}()
+	return M{"slice": TreeText(x.Cell())}
+}
+
 func dump(v reflect.Value, tag string, depth int) any {
 	t := v.Type()
 	if depth > 40 {
 		return "…"
+	}
+	if t == tVmCellSlice {
+		// the fields are unexported: the abstract value of a slice is the cell Cell() cuts out of its source
+		return vmSliceDump(v.Interface().(tlb.VmCellSlice))
 	}
 	if SchemaShape {
 		switch x := v.Interface().(type) {
